@@ -455,6 +455,10 @@ func (c config) coq() string {
 // pair ("( 8%N, 106%N)"), which the driver's pattern for failing cases does not match.
 const preamble = "From V Require Import model.M_C36.\nOpen Scope nat_scope.\nSet Printing Width 1000000."
 
+// knownIdx: the numbers of the findings currently listed as known (VERIF_KNOWN), set by TestC36. Coq
+// prefers an explanation of a deviation by these over one by a repaired defect.
+var knownIdx []int
+
 // ---------- running one case ----------
 
 type outcome struct {
@@ -481,7 +485,7 @@ func runCase(t *testing.T, cfg config, ops []op, gen func(r *rig, step int) (op,
 			obs = append(obs, r.apply(t, o))
 		}
 	}
-	term := fmt.Sprintf("(K %s %d %s %s %s)", cfg.coq(), cfg.NP, nats(cfg.BS0),
+	term := fmt.Sprintf("(K %s %s %d %s %s %s)", nats(knownIdx), cfg.coq(), cfg.NP, nats(cfg.BS0),
 		vh.ListOf(ops, op.coq), obsCoq(obs))
 	return outcome{term: term, replay: map[string]any{"config": cfg, "ops": ops}, obs: obs}
 }
@@ -496,6 +500,7 @@ type gen struct {
 	view                           []map[int]bool // cids each peer has asked for and not cancelled (approximation used only to aim cancels)
 	sawOverflow, sawFull, sawEvict bool
 	scen                           *scenario
+	tiedEnd                        bool
 }
 
 func pick[T any](e *vh.Env, xs []T) T { return xs[e.Rng.Intn(len(xs))] }
@@ -641,8 +646,27 @@ func (g *gen) scenarioStep(r *rig) (op, bool) {
 	return op{}, false
 }
 
+// tiedLedger: some peer's ledger holds two wants of equal priority. From then on which want the engine
+// evicts depends on Go map order, so a generated history ends there.
+func tiedLedger(r *rig) bool {
+	for _, p := range r.peers {
+		seen := map[int32]bool{}
+		for _, e := range r.e.WantlistForPeer(p) {
+			if seen[e.Priority] {
+				return true
+			}
+			seen[e.Priority] = true
+		}
+	}
+	return false
+}
+
 func (g *gen) next(r *rig, step int) (op, bool) {
 	rng := g.e.Rng
+	if tiedLedger(r) {
+		g.tiedEnd = true
+		return op{}, false
+	}
 	if g.scen != nil && g.scen.phase < 3 {
 		if o, ok := g.scenarioStep(r); ok {
 			return o, true
@@ -748,20 +772,34 @@ func (g *gen) msg(r *rig) op {
 		if w.Cancel {
 			w.Block, w.Sdh, w.Prio = true, false, 0 // what Cancel() builds
 		} else {
-			if !tied && !o.Full && len(ledger) == lim && allHaveBlocks && !inLedger[c] && rng.Intn(4) == 0 {
-				w.Prio = minPrio // boundary: as important as the least important existing want
-				tied = true
-			} else {
-				for {
-					w.Prio = 1 + rng.Int31n(span)
-					if !used[w.Prio] {
-						break
-					}
+			for {
+				w.Prio = 1 + rng.Int31n(span)
+				if !used[w.Prio] {
+					break
 				}
 			}
 			used[w.Prio] = true
 		}
 		o.Ents = append(o.Ents, w)
+	}
+	// boundary: one newcomer exactly as important as the least important existing want (it must replace
+	// it). Only when the ledger is full of wants with blocks and the message updates no existing want:
+	// then the tie is resolved inside this message and no two ledger entries end up with equal
+	// priorities (which would make the engine's next eviction depend on Go map order).
+	if !tied && !o.Full && len(ledger) == lim && allHaveBlocks && rng.Intn(3) == 0 {
+		updates, newcomer := false, -1
+		for i, w := range o.Ents {
+			if !w.Cancel && inLedger[w.Cid] {
+				updates = true
+			}
+			if !w.Cancel && !inLedger[w.Cid] && w.Cid < 100 && newcomer < 0 {
+				newcomer = i
+			}
+		}
+		if !updates && newcomer >= 0 {
+			o.Ents[newcomer].Prio = minPrio
+			tied = true
+		}
 	}
 	if o.Full && len(o.Ents) != 0 {
 		g.view[p] = map[int]bool{}
@@ -874,6 +912,14 @@ func TestC36(t *testing.T) {
 		"re-sent, identity, oversize and denied CIDs, distinct priorities), block add(+notify)/remove, queue drains; " +
 		"non-trivial = at least two non-empty messages and at least one non-empty envelope; distinct by (config, calls)")
 	cs := vh.NewCases(e, preamble, "case", "check_case", 100)
+	knownIdx = nil
+	for id := range e.Known {
+		var n int
+		if _, err := fmt.Sscanf(id, "C36-%d", &n); err == nil {
+			knownIdx = append(knownIdx, n)
+		}
+	}
+	sort.Ints(knownIdx)
 	for _, c := range corpus() {
 		out := runCase(t, c.cfg, c.ops, nil)
 		out.replay["corpus"] = c.name
@@ -897,6 +943,9 @@ func TestC36(t *testing.T) {
 			st.Count("scenario.full-ledger-with-absent-run")
 		}
 		out := runCase(t, cfg, nil, g.next)
+		if g.tiedEnd {
+			st.Count("history-ended-at-tied-ledger")
+		}
 		ops := out.replay["ops"].([]op)
 		cs.Add(out.term, out.replay)
 		st.Case(out.term, nontrivial(out.obs, ops))
